@@ -62,9 +62,9 @@ def runPlain (op : String) (args : List Sexp) : Option (Outcome Sexp × Acct) :=
   | "desc-return", [s] => do let s ← toJStr? s; pure (u (Text.descReturnOp s).run unitS)
   | _, _ => none
 
-/-- domain of the writer oracle (mirrors `write_domain` of the harness): no method can grow to 65533 bytes (site 9, still
-open) -/
-def writeDomain (b : Bytes) : Bool := b.length ≤ 24000
+/-- domain of the writer oracle (mirrors `write_domain` of the harness): every file the reader accepts (the restriction to
+files of at most 24000 bytes went with the repair of site 9, 136eeb3) -/
+def writeDomain (_b : Bytes) : Bool := true
 
 def handleC16 (op : String) (args : List Sexp) : Option Ans :=
   match op, args with
